@@ -46,7 +46,7 @@ class Check(PropertyCheck):
     case_preamble = "Open Scope string_scope."
     shard = 250
     rule = ("all 11 protocol versions x every command of the version x value tuples (all-minimum incl. empty variable-length "
-            "fields and absent optional fields, all-maximum incl. maximal length-prefixed fields, random incl. undefined enum values); "
+            "fields and absent optional fields, all-maximum incl. maximal length-prefixed fields, random incl. undefined enum values, each pair once more with the library's loggers at DEBUG); "
             "request: real _ezsp_frame bytes, positional and keyword form; response: raw wire values drawn from the flat layout "
             "(undefined enum / boolean values as an NCP could send them), encoded independently, fed through the real __call__; non-trivial = the command has at least one field; distinct by (version, command, values)")
     assumptions = ["zigpy's primitive serialisers are modelled (little-endian ints, LV bytes, lists) and compared on every case"]
@@ -68,6 +68,10 @@ class Check(PropertyCheck):
             for name in E.EZSP._BY_VERSION[v].COMMANDS:
                 for m in modes:
                     cases.append({"v": v, "name": name, "mode": m, "seed": rng.randrange(1 << 30), "seq": rng.randrange(256)})
+                # the codec is the same whatever the process's logging configuration: once more with the library's loggers at
+                # DEBUG (what a user enables to report a problem)
+                cases.append({"v": v, "name": name, "mode": "rand", "seed": rng.randrange(1 << 30), "seq": rng.randrange(256),
+                              "log": "debug"})
         return cases
 
     def _values(self, schema, rng, mode):
@@ -76,6 +80,20 @@ class Check(PropertyCheck):
         return et.gen_value(schema, rng, mode)
 
     def run_impl(self, case):
+        import logging
+        if case.get("log") != "debug":
+            return self._run_impl(case)
+        lg = logging.getLogger("bellows")
+        saved, saved_disable = lg.level, logging.root.manager.disable
+        lg.setLevel(logging.DEBUG)
+        logging.disable(logging.NOTSET)          # the harness runs with logging switched off; nothing is printed (no handler)
+        try:
+            return self._run_impl(case)
+        finally:
+            lg.setLevel(saved)
+            logging.disable(saved_disable)
+
+    def _run_impl(self, case):
         import random
         import bellows.types as t
         v, name = case["v"], case["name"]
@@ -88,6 +106,9 @@ class Check(PropertyCheck):
         try:
             txv = self._values(tx, rng, case["mode"])
             case["_txflat"] = et.flat_schema_values(tx, txv)
+            # the argument bytes, taken BEFORE the values are handed to the library (a call must not alter its arguments)
+            parts_before = (b"".join(ty(x).serialize() for ty, x in zip(tx.values(), txv)) if isinstance(tx, dict)
+                            else txv.serialize())
             # the response: RAW wire values drawn from the flat layout alone (no library type constructed, so
             # undefined enum / boolean values reach the decoder as an NCP could send them), encoded by an
             # independent encoder
@@ -154,7 +175,7 @@ class Check(PropertyCheck):
             proto._seq = case["seq"]
             out["tx"] = bytes(b_pos).hex()
             out["tx_kw_same"] = bytes(b_pos) == bytes(b_kw)
-            out["tx_parts_ok"] = bytes(b_pos)[len(header_ref(v, case["seq"], cid)):] == parts
+            out["tx_parts_ok"] = bytes(b_pos)[len(header_ref(v, case["seq"], cid)):] == parts == parts_before
             # the response as the NCP would send it (real serialisers), through the real receive path
             payload = et.flat_encode(rx_items, rawv)
             frame = header_ref(v, case["seq"], cid) + payload
@@ -242,6 +263,45 @@ class Check(PropertyCheck):
                            "required": "the schemas of a version describe that version's wire format: from EZSP v14 on every status field is the 32-bit unified status"}, found_input=True, signature="tables:legacy-status-in-v14")
 
         self._handler_independence(rep, rng)
+        self._long_run(rep)
+
+    def _long_run(self, rep):
+        """one handler object per version issues 600 commands through the public path: every request carries the number of
+        commands issued before it modulo 256 (the counter is never set by the harness here), in that version's layout"""
+        import bellows.ezsp as E
+        problems, n = [], 0
+        for v in sorted(E.EZSP._BY_VERSION):
+            ez = self.stack.make_ezsp(v)
+            proto = ez._protocol
+            sent = []
+
+            class Gw:
+                async def send_data(self, data):
+                    sent.append(bytes(data))
+            proto._gw = Gw()
+            cid = proto.COMMANDS["nop"][0]
+            for i in range(600):
+                del sent[:]
+                task = self.loop.create_task(proto.command("nop"))
+                for _ in range(6):
+                    self.loop.run_until_complete(asyncio.sleep(0))
+                    if sent or task.done():
+                        break
+                err = task.exception() if task.done() and not task.cancelled() else None
+                if not task.done():
+                    task.cancel()
+                    self.loop.run_until_complete(asyncio.sleep(0))
+                n += 1
+                want = header_ref(v, i % 256, cid)
+                if err is not None or len(sent) != 1 or sent[0] != want:
+                    problems.append(f"v{v}: command #{i} on one handler: " + (f"raised {err!r}" if err is not None else
+                                    f"request {sent[0].hex() if sent else None}, expected {want.hex()} (sequence number {i % 256})"))
+                    break
+        rep.cov["long_run_commands"] = n
+        if problems:
+            rep.violation({"input": "600 commands issued one after the other through one handler object, per protocol version",
+                           "observed": problems[:6], "required": "a command call emits its sequence number (commands issued so far modulo 256), that version's frame-control bytes and its frame id"},
+                          found_input=True, signature="codec:long-run")
 
     def _handler_independence(self, rep, rng):
         """the receive-path round trip holds for the handler in use whatever EARLIER handler objects (replaced at a reset or a
